@@ -132,11 +132,13 @@ class UlpiPhy:
                     self.state = IDLE
                     self._observe_idle_again(u, data)
                 return
-            # accept cycle
+            # accept cycle: the PHY takes whatever command byte is on the bus at this clock edge
             if data != self.cmd:
                 self.events.append((u, "command-changed-in-accept-cycle %02x->%02x" % (self.cmd, data)))
-                self.state = IDLE
-                return
+                if data == 0 or (data >> 6) != (self.cmd >> 6):
+                    self.state = IDLE
+                    return
+                self.cmd = data
             if self.kind == "tx":
                 self.cur_tx = dict(cmd=data, t_seen=self.cmd_t, t_cmd=u, bytes=[], stp_t=None, stp_data=None)
                 self.txs.append(self.cur_tx)
